@@ -30,7 +30,9 @@ var effectFreePrefixes = []string{
 	"google.golang.org/grpc/status.", "google.golang.org/grpc/codes.",
 	"(*time.Ticker).", "time.NewTicker", "time.After", "time.Sleep",
 	"(*container/list.List).", "container/list.New", "(*container/list.Element).",
-	"dynamic:context.CancelFunc",
+	"dynamic:context.CancelFunc", "dynamic:func()",
+	"encoding/json.Marshal",
+	"k8s.io/apimachinery/pkg/api/errors.NewNotFound",
 	"(k8s.io/client-go/tools/leaderelection/resourcelock.Interface).",
 }
 
@@ -182,6 +184,32 @@ func (g *Gen) execCall(v ssa.Value, c *ssa.CallCommon, in ssa.Instruction, st St
 	}
 	if c.IsInvoke() && (c.Method.Name() == "Error" || c.Method.Name() == "String") {
 		return
+	}
+	// external decoders write only through the pointer they are given
+	if name == "encoding/json.Unmarshal" && len(c.Args) == 2 {
+		g.assumed["external function writes only through its pointer argument: "+name] = true
+		if mi, ok := c.Args[1].(*ssa.MakeInterface); ok {
+			if pt, ok := mi.X.Type().Underlying().(*types.Pointer); ok {
+				if _, isStruct := pt.Elem().Underlying().(*types.Struct); isStruct {
+					if a, isAlloc := mi.X.(*ssa.Alloc); isAlloc && g.isCellAlloc(a) {
+						lv := g.resolveAddr(a, st)
+						g.stHavoc(st, lv.heap, lv.hso)
+					} else {
+						pre := "F." + typeKey(pt.Elem()) + "."
+						for hn, so := range g.stSorts {
+							if strings.HasPrefix(hn, pre) {
+								g.stHavoc(st, hn, so)
+								g.recordWrite(hn, mi.X)
+							}
+						}
+						if g.curMods != nil {
+							g.curMods["*struct:"+typeKey(pt.Elem())] = nil
+						}
+					}
+					return
+				}
+			}
+		}
 	}
 	// a function of the loaded program without a contract: havoc exactly what its body (and
 	// its callees) may write, computed syntactically on the SSA
